@@ -581,13 +581,26 @@ func ruleC18Header(r *Run, p *Program, rule string) {
 	}
 	// newHeader uses signature and formatVersion; every new file gets a header, every existing one is checked
 	if f := p.Fn("pogreb.openFile"); r.anchor(rule, "pogreb.openFile", f != nil) {
+		// the header writer / checker: the calls in openFile that reach (*header).MarshalBinary / UnmarshalBinary
 		var wh, rh *ssa.Call
+		reaches := func(g *ssa.Function, key string) bool {
+			for _, h := range deepFuncs(p, g) {
+				if funcKey(h) == key {
+					return true
+				}
+			}
+			return false
+		}
 		instrsOf(f, func(in ssa.Instruction) {
 			if c, ok := in.(*ssa.Call); ok {
-				switch calleeKey(&c.Call) {
-				case "(*pogreb.file).writeHeader":
+				g := c.Call.StaticCallee()
+				if g == nil || g.Pkg != p.MainS {
+					return
+				}
+				if reaches(g, "(pogreb.header).MarshalBinary") {
 					wh = c
-				case "(*pogreb.file).readHeader":
+				}
+				if reaches(g, "(*pogreb.header).UnmarshalBinary") {
 					rh = c
 				}
 			}
@@ -725,25 +738,35 @@ func ruleC18Names(r *Run, p *Program, rule string) {
 	}
 	// openDatalog only considers *.psg
 	if f := p.Fn("pogreb.openDatalog"); r.anchor(rule, "pogreb.openDatalog", f != nil) {
-		var os *ssa.Call
-		instrsOf(f, func(in ssa.Instruction) {
-			if c, ok := in.(*ssa.Call); ok && calleeKey(&c.Call) == "(*pogreb.datalog).openSegment" {
-				os = c
-			}
+		oss := findWorkDeep(p, f, func(in ssa.Instruction) bool {
+			c, ok := in.(*ssa.Call)
+			return ok && calleeKey(&c.Call) == "(*pogreb.datalog).openSegment"
 		})
-		if r.anchor(rule, "openSegment call in openDatalog", os != nil) {
-			checkSkipsOnly(r, p, rule, "pogreb.openDatalog:opens-all-segments", f, os, func(c *Cond) bool {
-				eq, ok := c.holdsEq()
-				if !ok || eq {
-					return false
+		// only the opens of directory entries (swapSegment's creation of a new segment is not part of the scan)
+		{
+			var scan []Node
+			for _, nd := range oss {
+				if c := nd.In.(*ssa.Call); len(c.Call.Args) > 1 && nameAbs(nd.Ctx, c.Call.Args[1], 0) == "DIRENT" {
+					scan = append(scan, nd)
 				}
-				for _, v := range []ssa.Value{c.X, c.Y} {
-					if k, ok := v.(*ssa.Const); ok && k.Value != nil && k.Value.Kind() == constant.String && constant.StringVal(k.Value) == ".psg" {
-						return true
+			}
+			oss = scan
+		}
+		if r.anchor(rule, "openSegment call in openDatalog", len(oss) > 0) {
+			for _, nd := range oss {
+				checkSkipsDeep(r, p, rule, "pogreb.openDatalog:opens-all-segments", nd, func(c *Cond) bool {
+					eq, ok := c.holdsEq()
+					if !ok || eq {
+						return false
 					}
-				}
-				return false
-			}, "every directory entry with extension .psg is opened as a segment", "openDatalog skips a *.psg file for a reason other than its extension")
+					for _, v := range []ssa.Value{c.X, c.Y} {
+						if k, ok := v.(*ssa.Const); ok && k.Value != nil && k.Value.Kind() == constant.String && constant.StringVal(k.Value) == ".psg" {
+							return true
+						}
+					}
+					return false
+				}, "every directory entry with extension .psg is opened as a segment", "openDatalog skips a *.psg file for a reason other than its extension")
+			}
 		}
 	}
 }
